@@ -1,18 +1,21 @@
 /-!
-C06 — the Go operations that can panic, as total functions that return `panic` exactly when Go
-would, the GUARDED call sites as the current code of /repo has them (after ee44ab4, 1d04360), an
-explicitly UNGUARDED copy of the repaired ones (the code before the repair; negative witnesses), the
-argument checking of the builtins `len add del concat range raise type new`, the kind checks of the
-sink attributes and the state matcher of the rule index.
+C06 — transcriptions that are NOT part of the evaluator model `Ecal.Ev`: the argument checking of the Go
+builtins `len add del concat range raise type` (func_provider.go) over an abstract value type, the kind check
+of the sink attributes (rt_sink.go) and the state matcher's key test (engine/rule.go).  The driver uses
+`builtin` only where `Ecal.Ev` says UNSUP (string-numbers for range/del, float / function formatting for
+raise/type) and `sinkAttrSite` for the sink-attribute family; everything else here is compared with Go only
+through those cases.  The guarded value-level sites of the INTERPRETER (list access, delete/insert, map
+literal keys, `%`, `==`, operand assertions) are NOT here any more: they live in `Ecal/Model/GoPrim.lean`
+over the evaluator's own values and are tied to `Ecal.Ev` by `Ecal/Lemmas/C06Guards.lean`.
 
 Numbers: a builtin only ever converts a number argument with `int(x)` and `int(x+1)`; a number is
-therefore represented by these two conversion results (`num i i1`).  For every float64 with
-`0 ≤ int(x) < 2^53`, `int(x+1) = int(x)+1` (`PVal.NumOK`); outside that range Go's conversion is
-implementation defined but never panics, so `i`/`i1` are arbitrary there.
-Strings carry whether `strconv.ParseFloat` accepts them (AssertNumParam falls back to parsing the
-printed value; the printed form of null / bool / list / map / function is never a number).
-Slices: capacity = length (a slice expression that Go accepts because of spare capacity is a panic
-here: the guards are shown to be sufficient even without spare capacity).
+represented by these two conversion results (`num i i1`).  `PVal.NumOK`: `0 ≤ i → i ≤ i1 ≤ i+1` — true for
+every float64 on every platform (also NaN / ±Inf / -0.5, where Go's conversion is implementation defined but
+monotone); nothing else is assumed about `i`, `i1`.
+Strings carry whether `strconv.ParseFloat` accepts them.  Slices: capacity = length (a slice expression that
+Go accepts because of spare capacity is a panic here: the guards are shown sufficient even without it).
+`del(map, k)`, `type(v)`, `raise(v…)` print their argument with fmt.Sprint in Go: the known finding
+`cyclic-container-stringify` is outside these transcriptions (PVal is a tree).
 -/
 namespace Ecal.Prims
 
@@ -47,8 +50,8 @@ def PVal.kind : PVal → Kind
 def PVal.hashable (v : PVal) : Bool := v.kind != .list && v.kind != .map
 
 def PVal.NumOK : PVal → Prop
-  | .num i i1 => 0 ≤ i → i1 = i + 1
-  | .str _ (some (i, i1)) => 0 ≤ i → i1 = i + 1
+  | .num i i1 => 0 ≤ i → i ≤ i1 ∧ i1 ≤ i + 1
+  | .str _ (some (i, i1)) => 0 ≤ i → i ≤ i1 ∧ i1 ≤ i + 1
   | _ => True
 
 /-! ### the primitives -/
@@ -81,82 +84,11 @@ def sameShape : PVal → PVal → Bool
   | .map a, .map b => a.length == b.length
   | _, _ => false
 
-/-- `a == b` on two interface values: panics when both hold the same uncomparable dynamic type -/
-def goIfaceEq (a b : PVal) : R Bool :=
-  if a.kind = b.kind ∧ !a.hashable then .error (.panic "comparing uncomparable type")
-  else .ok (sameShape a b)
-
 /-- `m[k] = v` / `m[k]` with an interface key -/
 def goMapStore (m : List (PVal × PVal)) (k v : PVal) : R (List (PVal × PVal)) :=
   if k.hashable then .ok (m ++ [(k, v)]) else .error (.panic "hash of unhashable type")
 
-/-- `a % b` on int64 -/
-def goIntMod (a b : Int) : R Int :=
-  if b = 0 then .error (.panic "integer divide by zero") else .ok (a.tmod b)
-
-/-- errorutil.AssertTrue -/
-def assertTrue (c : Bool) : R Unit := if c then .ok () else .error (.panic "assertion failed")
-
-/-! ### guarded call sites (current code) -/
-
-/-- rt_arithmetic.go modintOpRuntime: `if int64(n2) == 0 { error }` before `int64(n1) % int64(n2)` -/
-def modSite (a b : Int) : R Int :=
-  if b = 0 then .error (.err "Runtime error") else goIntMod a b
-
-/-- rt_boolean.go valuesEqual: same uncomparable type → reflect.DeepEqual, otherwise `==` -/
-def eqSite (a b : PVal) : R Bool :=
-  if a.kind = b.kind ∧ !a.hashable then .ok (sameShape a b) else goIfaceEq a b
-
-/-- rt_boolean.go inOpRuntime: the right operand is asserted with comma-ok, elements compared by valuesEqual -/
-def inSite (a b : PVal) : R Bool :=
-  match goAssertOk .list b with
-  | some (.list xs) => xs.foldlM (fun found x => do if found then pure true else eqSite a x) false
-  | _ => .error (.err "Operand is not a list")
-
-/-- rt_value.go mapValueRuntime: entry shape, then key kind, then the store -/
-def mapLitSite (entryName : String) (entry : List PVal) (m : List (PVal × PVal)) : R (List (PVal × PVal)) :=
-  if entryName ≠ "kvp" ∨ entry.length ≠ 2 then .error (.err "Invalid construct")
-  else do
-    let k ← goIndex entry 0
-    if k.kind ≠ .null ∧ !k.hashable then .error (.err "Invalid construct")
-    else do
-      let v ← goIndex entry 1
-      goMapStore m k v
-
-/-- the index adjustment shared by the three list accesses of scope/varsscope.go -/
-def adjust (len : Nat) (idx : Int) : Int := if idx < 0 then idx + len else idx
-
-/-- varsscope.go getValue: `if index < 0 { index += len }; if index >= 0 && index < len { list[index] }` -/
-def listGetSite (xs : List PVal) (idx : Int) : R PVal :=
-  let i := adjust xs.length idx
-  if 0 ≤ i ∧ i < xs.length then goIndex xs i else .error (.err "Out of bounds access to list")
-
-/-- varsscope.go setValue: the same guard before `list[index] = v` -/
-def listSetSite (xs : List PVal) (idx : Int) (v : PVal) : R (List PVal) :=
-  let i := adjust xs.length idx
-  if 0 ≤ i ∧ i < xs.length then do let _ ← goIndex xs i; pure (xs.set i.toNat v)
-  else .error (.err "Out of bounds access to list")
-
-/-- varsscope.go containerAccess (nested write): the same guard -/
-def listWalkSite (xs : List PVal) (idx : Int) : R PVal :=
-  let i := adjust xs.length idx
-  if 0 ≤ i ∧ i < xs.length then goIndex xs i else .error (.err "Out of bounds access to list")
-
-/-- varsscope.go: the container is tested with comma-ok assertions -/
-def containerSite (c : PVal) (idx : Option Int) : R PVal :=
-  match goAssertOk .map c, goAssertOk .list c with
-  | some _, _ => .ok .null
-  | none, some (.list xs) =>
-    match idx with
-    | some i => listGetSite xs i
-    | none => .error (.err "List needs a number index")
-  | _, _ => .error (.err "Variable is not a container")
-
-/-- rt_general.go numOp / boolOp: operands asserted with comma-ok -/
-def numOpSite (a b : PVal) : R PVal :=
-  match goAssertOk .num a, goAssertOk .num b with
-  | some x, some _ => .ok x
-  | _, _ => .error (.err "Operand is not a number")
+/-! ### sites outside the evaluator model -/
 
 /-- func_provider.go raise: the error type defaults to ErrRuntimeError, `args[k]` only under `len(args) > k` -/
 def raiseSite (args : List PVal) : R PVal := do
@@ -179,20 +111,7 @@ def stateKeySite (table : List (PVal × PVal)) (v : PVal) : R Bool :=
   else if v.hashable then do let _ ← goMapStore table v .null; pure true
   else .ok (table.any fun p => sameShape p.1 v)
 
-/-- engine/rule.go RuleIndexState.addRuleAtLevel: the level assertion holds by construction of the
-    index (a state index is only created for the last kind segment) -/
-def stateLeafSite : R Unit := assertTrue (([] : List String).length == 0)
-
-/-! ### unguarded copies (the code before ee44ab4 / 1d04360) -/
-def modSiteUnguarded (a b : Int) : R Int := goIntMod a b
-def eqSiteUnguarded (a b : PVal) : R Bool := goIfaceEq a b
-def listGetSiteUnguarded (xs : List PVal) (idx : Int) : R PVal :=
-  let i := adjust xs.length idx
-  if i < xs.length then goIndex xs i else .error (.err "Out of bounds access to list")
-def mapLitSiteUnguarded (entry : List PVal) (m : List (PVal × PVal)) : R (List (PVal × PVal)) := do
-  let k ← goIndex entry 0
-  let v ← goIndex entry 1
-  goMapStore m k v
+/-! ### unguarded copies (1d04360; a sink attribute without its kind check) -/
 def stateKeySiteUnguarded (table : List (PVal × PVal)) (v : PVal) : R Bool := do
   let _ ← goMapStore table v .null; pure true
 def sinkAttrSiteUnguarded (want : Kind) (v : PVal) : R PVal := goAssert want v
@@ -287,49 +206,14 @@ def rangeFunc (args : List PVal) : R PVal :=
       let c ← goIndex args 2; let _ ← assertNumParam c; .error .iter
     else .error .iter
 
-def mapGet (kvs : List (PVal × PVal)) (key : String) : Option PVal :=
-  (kvs.find? fun p => match p.1 with | .str s _ => s == key | _ => false).map (·.2)
-
-/-- newFunc.addSuperClasses: `super` must be a list (comma-ok), entries that are not maps are skipped -/
-def addSuperClasses : Nat → List (PVal × PVal) → R Unit
-  | 0, _ => .ok ()
-  | d+1, template =>
-    match mapGet template "super" with
-    | none => .ok ()
-    | some sup =>
-      match goAssertOk .list sup with
-      | some (.list xs) =>
-        xs.forM fun x => match goAssertOk .map x with
-          | some (.map t) => addSuperClasses d t
-          | _ => .ok ()
-      | _ => .error (.err "Property _super must be a list of super classes")
-
-/-- newFunc.Run; `initRun` stands for running the user's init function (user code: any outcome but a
-    panic of the interpreter, which is what `eval_never_panics` is about) -/
-def newFunc (initRun : List PVal → R Unit) (args : List PVal) : R PVal :=
-  if args.length > 0 then do
-    let a0 ← goIndex args 0
-    let tmpl ← assertMapParam a0
-    let r := addSuperClasses 64 tmpl
-    match mapGet tmpl "init" with
-    | some i =>
-      match goAssertOk .func i with
-      | some _ => do
-        let rest ← goSlice args 1 args.length
-        initRun rest
-        .ok (.map tmpl)
-      | none => do r; .ok (.map tmpl)
-    | none => do r; .ok (.map tmpl)
-  else .error (.err "Need a map as first parameter")
-
-def builtinNames : List String := ["len", "add", "del", "concat", "range", "raise", "type", "new"]
+def builtinNames : List String := ["len", "add", "del", "concat", "range", "raise", "type"]
 
 /-- the modelled builtins (any other name: not modelled here) -/
-def builtin (initRun : List PVal → R Unit) (name : String) (args : List PVal) : Option (R PVal) :=
+def builtin (name : String) (args : List PVal) : Option (R PVal) :=
   match name with
   | "len" => some (lenFunc args) | "add" => some (addFunc args) | "del" => some (delFunc args)
   | "concat" => some (concatFunc args) | "range" => some (rangeFunc args) | "raise" => some (raiseSite args)
-  | "type" => some (typeFunc args) | "new" => some (newFunc initRun args)
+  | "type" => some (typeFunc args)
   | _ => none
 
 end Ecal.Prims
